@@ -18,6 +18,7 @@ ATTRS = ['CKA_CLASS', 'CKA_TOKEN', 'CKA_PRIVATE', 'CKA_LABEL', 'CKA_APPLICATION'
 SIZE_ONLY = ['CKA_WRAP_TEMPLATE', 'CKA_UNWRAP_TEMPLATE']
 ALL = ATTRS + SIZE_ONLY
 CAP = 2048
+READ_OK = ('CKR_OK', 'CKR_ATTRIBUTE_SENSITIVE', 'CKR_ATTRIBUTE_TYPE_INVALID', 'CKR_BUFFER_TOO_SMALL')
 
 def read_object(x, s, h):
     """-> (rvname, tuple of per-attribute values: hex string, None = unavailable, 'len:n' for size-only / oversize)"""
@@ -25,6 +26,7 @@ def read_object(x, s, h):
     tmpl = [{'t': ck[a], 'buf': CAP} for a in ATTRS] + [{'t': ck[a], 'buf': None} for a in SIZE_ONLY]
     r = x.call('C_GetAttributeValue', s=s, o=h, tmpl=tmpl)
     vals = []
+    if r['rvname'] not in READ_OK: return r['rvname'], (None,) * len(ALL)    # nothing was filled in (buffers still hold the canary)
     for a, e in zip(ALL, r.get('tmpl', [])):
         if e.get('len', -1) == -1: vals.append(None)
         elif 'data' in e and e['len'] <= CAP and a in ATTRS: vals.append(e['data'])
